@@ -287,6 +287,7 @@ pub struct Sim<'w> {
     pub budget_exhausted: bool,
     pub last_fetch_ms: Option<i64>,
     pub slot_expired_sends: u64,
+    pub prev_failures: u32,
     pub deferred: Vec<Fail>,
     pub evals: u64,
 }
@@ -325,6 +326,7 @@ impl<'w> Sim<'w> {
             budget_exhausted: false,
             last_fetch_ms: None,
             slot_expired_sends: 0,
+            prev_failures: 0,
             deferred: vec![],
             evals: 0,
         })
@@ -426,6 +428,7 @@ impl<'w> Sim<'w> {
                 FetchOutcome::Failure
             };
             self.model.last_outcome = Some(outcome);
+            self.prev_failures = self.model.consecutive_failures;
             if outcome == FetchOutcome::Failure {
                 self.model.consecutive_failures += 1;
                 self.max_fail_run = self.max_fail_run.max(self.model.consecutive_failures);
@@ -446,6 +449,20 @@ impl<'w> Sim<'w> {
     /// C06 (5): re-attempt no sooner than min delay, no later than backoff ceiling / interval.
     fn check_schedule(&mut self, t: SystemTime, outcome: FetchOutcome) -> CheckResult {
         self.evals += 1;
+        // A fetch that delivered policy-conform paths but leaves nothing cached (every one of
+        // them already expired; or a cache of size 0) is handled by the manager like a fetch
+        // without usable paths: one more failed attempt, backoff, error recorded.
+        let mut outcome = outcome;
+        if outcome != FetchOutcome::Failure && self.drv.cached_paths(t).is_empty() {
+            ensure!(outcome == FetchOutcome::SuccessAllExpired || self.cfg.max_cached == 0, "fetched-live-path-not-cached",
+                "fetch at {} ms delivered a live policy-conform path but nothing is cached afterwards (max_cached {})", ms(t), self.cfg.max_cached);
+            ensure!(self.drv.current_error().is_some(), "empty-cache-after-fetch-but-no-error-recorded",
+                "fetch at {} ms leaves nothing cached, but current_error is unset", ms(t));
+            outcome = FetchOutcome::Failure;
+            self.model.last_outcome = Some(outcome);
+            self.model.consecutive_failures = self.prev_failures + 1;
+            self.max_fail_run = self.max_fail_run.max(self.model.consecutive_failures);
+        }
         let nr = self.drv.next_refetch();
         let d = nr.duration_since(t).map(|d| d.as_nanos() as i128).unwrap_or_else(|e| -(e.duration().as_nanos() as i128));
         let msn = |m: u64| m as i128 * 1_000_000;
